@@ -61,6 +61,10 @@ type Session struct {
 	adoptName string
 	adopted   chan struct{}
 
+	// Prefer names a thread that is chosen whenever it is enabled, beyond
+	// the replayed prefix (e.g. an eager background remover).
+	Prefer string
+
 	// AtomicPoints makes vatomic operations scheduling points.
 	AtomicPoints bool
 	// LabelOnly lists hook names that are recorded but never yield
@@ -237,6 +241,12 @@ func (s *Session) pick(from *thread) *thread {
 				s.Divergence = fmt.Sprintf("choice %d out of range (%d enabled) at point %d", choice, len(en), s.pos)
 				choice = 0
 			}
+		} else if s.Prefer != "" {
+			for i, t := range en {
+				if t.name == s.Prefer {
+					choice = i
+				}
+			}
 		}
 		s.pos++
 		p := Point{Choice: choice, RunningEnabled: runningEnabled}
@@ -357,6 +367,7 @@ func Await(op string, ready func() bool) {
 	}
 	t := s.me()
 	if t == nil {
+		awaitCalls.Add(1)
 		s.mu.Lock()
 		if s.adoptOp == op && !s.closed {
 			t = &thread{id: len(s.threads), name: s.adoptName, wake: make(chan int, 1), daemon: true}
@@ -488,7 +499,14 @@ func StopNextAwait(op string) <-chan struct{} {
 // CancelStop withdraws a pending StopNextAwait.
 func CancelStop() { stopNext.Store(nil) }
 
+var awaitCalls atomic.Int64
+
+// AwaitCalls counts Await calls made by unmanaged goroutines (the
+// background remover announces each receive with one).
+func AwaitCalls() int64 { return awaitCalls.Load() }
+
 func checkStop(op string) {
+	awaitCalls.Add(1)
 	if r := stopNext.Load(); r != nil && r.op == op && stopNext.CompareAndSwap(r, nil) {
 		close(r.done)
 		runtime.Goexit()
